@@ -61,6 +61,31 @@ def find_flag_locals(cfg):
     return {l for l in cand if cfg.defs.get(l)}
 
 
+def partial_flags(cfg):
+    """bool locals (beyond the parameters) with at least one constant definition, closed under copies: candidates for
+    Explorer(extra_flags=..) - their value is unknown after a non-constant definition and learnt again at a switch"""
+    body = cfg.body
+    xf = set()
+    for l, ds in cfg.defs.items():
+        if body.lty(l) == 'bool' and l > body.arg_count and \
+                any(si != 'call' and d.rv['k'] == 'use' and Operand(d.rv['o']).is_const for (bi, si, d) in ds):
+            xf.add(l)
+    grew = True
+    while grew:
+        grew = False
+        for l, ds in cfg.defs.items():
+            if l in xf or body.lty(l) != 'bool' or l <= body.arg_count:
+                continue
+            for (bi, si, d) in ds:
+                if si != 'call' and d.rv['k'] == 'use':
+                    o = Operand(d.rv['o'])
+                    if o.place is not None and o.place.is_local and o.place.l in xf:
+                        xf.add(l)
+                        grew = True
+                        break
+    return xf
+
+
 class SwitchInfo:
     """what each edge of a switch block tells us"""
     __slots__ = ('flag', 'var_roots', 'edges', 'pred_call')
